@@ -1,7 +1,7 @@
 SPECIFICATION Spec
 CONSTANTS
   Procs = {p1, p2, p3}
-  NCalls = 2
+  NCalls = 1
   FIXED = TRUE
   GRAPH = "chain"
   Refs <- MCRefs
